@@ -177,6 +177,7 @@ package server
 
 //@ func (*LockManagerWaitQueue).IterNodes
 //@   trusted queue internals (wait queue), subject of C20
+//@   ensures C02.wait.iter-complete,C20.wait.iter-complete,C03.wait.iter-complete: implies(!isnil(self.ringQueue), calls(IterNodes) == 1) && implies(!isnil(self.fastQueue) && 0 <= self.fastIndex && self.fastIndex < len(self.fastQueue), len(result) >= 1)
 //@   modifies E_LJPserver_Lock
 
 //@ func (*LockManagerWaitQueue).RePushPriorityRingQueue
@@ -226,6 +227,7 @@ package server
 //@   requires self != nil && command != nil && self.currentLock != nil && self.currentLock.command != nil
 //@   ensures C02.owner.sound: implies(result != nil, result.command != nil && result.command.LockId == command.LockId && (result == self.currentLock || result.locked > 0))
 //@   ensures C02.owner.oldest: implies(self.currentLock.command.LockId == command.LockId, result == self.currentLock)
+//@   ensures C02.owner.complete,C01.owner.complete: implies(result == nil && self.locks != nil, calls(LockManagerLockQueue.GetLock) == 1 && implies(!isnil(self.locks.fastQueue) && self.locks.fastIndex >= 0, forall(k, self.locks.fastIndex, len(self.locks.fastQueue), !holdMatches(self.locks.fastQueue[k], command.LockId))) && implies(self.locks.scaleQueue != nil, !has(self.locks.scaleQueue.maps, command.LockId)))
 //@   modifies nothing
 
 //@ func (*LockManager).checkLockedCountEqual
@@ -558,6 +560,12 @@ package server
 //@   ensures C04.cancel.wake: implies(calls(ProxyServerProtocol.ProcessLockResultCommandLocked) == 1, calls(wakeUpWaitLocks) >= 1)
 //@   modifies all
 
+// C05/C06: an unlock that asks for its hold to be queued again (unlock-to-wait) queues the request under the terms the
+// unlock request carries: the same timeout and expiry values AND units, Count and Rcount
+//@ func (*LockDB).addUnlockLockCommandToWaitLock
+//@   inline
+//@   at call GetOrNewLock assert C05.requeue.terms,C06.requeue.terms: command.Timeout == requestCommand.Timeout && command.TimeoutFlag == requestCommand.TimeoutFlag && command.Expried == requestCommand.Expried && command.ExpriedFlag == requestCommand.ExpriedFlag && command.Count == requestCommand.Count && command.Rcount == requestCommand.Rcount
+
 // unlockTreeLock and addUnlockLockCommandToWaitLock (flags outside the core command subset) carry no contract: they are inlined
 
 // the request's own hold: the LockId matches, or (unlock-first) it is the oldest holder
@@ -582,6 +590,7 @@ package server
 //@   at call ProcessLockResultCommand assert C02.unlock.ends: implies(arg2 == protocol.RESULT_SUCCED, (currentLock.locked == 0) == (calls(RemoveLock) == 1))
 //@   at call ProcessLockResultCommand assert C17.unlock.lcount: implies(lockManager != nil, arg3 == u16(lockManager.locked)) && implies(arg2 == protocol.RESULT_SUCCED, arg4 == currentLock.locked)
 //@   at call ProcessLockData assert C15.unlock.capture: calls(GetLockData) >= 1
+//@   at call RemoveLock assert C03.unlock.tombstone,C06.unlock.tombstone: arg1.expried
 //@   at call RemoveLongExpried assert C06.unlock.movekey: arg2 == atsection(currentLock.expriedTime) && atsection(currentLock.longWaitIndex) > 0
 //@   at call wakeUpWaitLocks assert C17.unlock.counter: u32(lockManager.state.LockedCount - atsection(lockManager.state.LockedCount)) == u32(lockManager.locked - atsection(lockManager.locked))
 //@   ensures C03.unlock.atmostone: calls(ProcessLockResultCommand) <= 1
@@ -796,6 +805,8 @@ package server
 //@ func (*TransparencyBinaryServerProtocol).ProcessParse
 //@   requires self != nil
 //@   at call ProcessParseLockData assert C14.transparency.decode-data: lockCommand != nil && inlineLockDecode(lockCommand, buf)
+//@   at call LockDB.Lock assert C10.forward.same-request,C14.transparency.decode-lock: implies(calls(ProcessParseLockData) == 0, inlineLockDecode(lockCommand, buf) && arg2 == lockCommand)
+//@   at call LockDB.UnLock assert C10.forward.same-request,C14.transparency.decode-unlock: implies(calls(ProcessParseLockData) == 0, inlineLockDecode(lockCommand, buf) && arg2 == lockCommand)
 //@   modifies all
 
 //@ func (*BinaryServerProtocol).GetLockCommandLocked
